@@ -171,7 +171,7 @@ def cases(draw, max_ops=12):
 
 CLAUSES = [
     Clause('histories', check_case, kind='random', strategy=lambda: cases(12),
-           budget={'quick': 5000, 'thorough': 40000}),
+           budget={'quick': 5000, 'thorough': 120000}),
     Clause('long-histories', check_case, kind='random', strategy=lambda: cases(30),
-           budget={'quick': 0, 'thorough': 8000}),
+           budget={'quick': 0, 'thorough': 24000}),
 ]
